@@ -107,7 +107,13 @@ def val(value, state):
 
 
 def exc(value, state):
+    if _TRACE_EXC and value == ("exc", _TRACE_EXC):
+        import traceback
+        traceback.print_stack(limit=int(os.environ.get("TTSA_TRACE_DEPTH", "6")))
     return Result("exc", value, state)
+
+
+_TRACE_EXC = os.environ.get("TTSA_TRACE_EXC")
 
 
 def is_handle(v):
@@ -1256,6 +1262,8 @@ class Interp:
                     continue
                 s2 = r.state
                 if r.value in (NONE, TRUE, FALSE) and any(isinstance(t, (ast.Tuple, ast.List)) for t in s.targets):
+                    if _TRACE_EXC == "TypeError":
+                        print("UNPACK-TYPEERROR in", fr.name, "line", s.lineno, norm(s)[:100])
                     out.append(("raise", ("exc", "TypeError"), s2))   # cannot unpack None / a bool
                     continue
                 if isinstance(r.value, tuple) and r.value[:1] == ("tuple",) and any(
